@@ -109,6 +109,12 @@ fn anchor_count(o: &Outcome) -> usize {
 pub fn check_parts(info: &mut CaseInfo, texts: &[String]) -> CheckResult {
     // every part must be accepted on its own (precondition of the statement)
     let mut parts: Vec<Outcome> = vec![];
+    if texts.iter().any(|t| t.contains('\0')) {
+        // U+0000 is the Input contract's end-of-input sentinel: such a part is accepted alone only
+        // because the scanner stops reading there, and is not a stream in the statement's sense
+        info.class("skipped: a part contains NUL (end-of-input sentinel)");
+        return Ok(());
+    }
     for t in texts {
         let o = parse_with(Backend::Str, t);
         if !o.ok() {
